@@ -70,6 +70,9 @@ TargetEv0 ==
   \/ IsT("obs.handled") /\ tg.cur = [x |-> X, k |-> Ev.k] /\ TgHandle /\ Adv
   \/ IsA("obs.fail") /\ tg.cur = FailItem /\ TgHandle /\ Adv
   \/ IsA("obs.busy") /\ tg.cur = BusyItem /\ TgHandle /\ Adv
+  \* an executor stall (tokio::time::advance inside a poll): by the target's handler, or by a client task
+  \/ IsA("obs.stall") /\ Ev.x = "tg" /\ TgHandleStall(Ev.d) /\ Adv
+  \/ IsA("obs.stall") /\ Ev.x = "env" /\ Stall(Ev.d) /\ Adv
   \/ IsA("obs.busy_end") /\ TgBusyEnd /\ Adv
   \/ IsA("obs.post_stop") /\ tg.st = "stopping" /\ tg.exitR \notin {"killed", "err"} /\ Same /\ Adv
   \/ /\ IsA("obs.sup") /\ tg.st = "dead" /\ Same /\ Adv
